@@ -1,0 +1,112 @@
+//! Verification hooks. This module is compiled only with `--cfg brush_verif`; it has no
+//! effect unless `BRUSH_VERIF_TRACE` and/or `BRUSH_VERIF_PAUSE` are set in the environment.
+//!
+//! * `BRUSH_VERIF_TRACE=<path>`: one JSON object per line is appended for every event, in
+//!   the order given by a process-wide sequence number assigned under the sink's lock.
+//! * `BRUSH_VERIF_PAUSE="point=ms,point=ms"`: the calling thread sleeps at the named points.
+
+use std::io::Write;
+use std::sync::atomic::{AtomicU64, Ordering};
+use std::sync::{Mutex, OnceLock};
+
+struct Sink {
+    file: std::fs::File,
+    seq: u64,
+}
+
+static SINK: OnceLock<Option<Mutex<Sink>>> = OnceLock::new();
+static PAUSES: OnceLock<Vec<(String, u64)>> = OnceLock::new();
+static IDS: AtomicU64 = AtomicU64::new(1);
+
+/// Returns a fresh process-wide identifier (for pipelines, job tasks, managers).
+pub fn fresh_id() -> u64 {
+    IDS.fetch_add(1, Ordering::SeqCst)
+}
+
+/// A process-unique identity that is renewed whenever its owner is default-constructed.
+#[derive(Debug)]
+pub struct Identity(pub u64);
+
+impl Default for Identity {
+    fn default() -> Self {
+        Self(fresh_id())
+    }
+}
+
+fn sink() -> Option<&'static Mutex<Sink>> {
+    SINK.get_or_init(|| {
+        let path = std::env::var_os("BRUSH_VERIF_TRACE")?;
+        let file = std::fs::OpenOptions::new()
+            .create(true)
+            .append(true)
+            .open(path)
+            .ok()?;
+        Some(Mutex::new(Sink { file, seq: 0 }))
+    })
+    .as_ref()
+}
+
+/// Returns whether event tracing is enabled.
+pub fn enabled() -> bool {
+    sink().is_some()
+}
+
+/// Records an event with integer fields.
+pub fn event(ev: &str, fields: &[(&str, i64)]) {
+    event_s(ev, fields, &[]);
+}
+
+/// Records an event with integer and string fields.
+pub fn event_s(ev: &str, fields: &[(&str, i64)], sfields: &[(&str, &str)]) {
+    let Some(sink) = sink() else {
+        return;
+    };
+    let Ok(mut sink) = sink.lock() else {
+        return;
+    };
+    sink.seq += 1;
+    let mut line = std::format!(
+        "{{\"seq\":{},\"pid\":{},\"ev\":\"{}\"",
+        sink.seq,
+        std::process::id(),
+        ev
+    );
+    for (k, v) in fields {
+        line.push_str(&std::format!(",\"{k}\":{v}"));
+    }
+    for (k, v) in sfields {
+        let escaped: String = v
+            .chars()
+            .flat_map(|c| match c {
+                '"' => "\\\"".chars().collect::<Vec<_>>(),
+                '\\' => "\\\\".chars().collect(),
+                c if (c as u32) < 0x20 => std::format!("\\u{:04x}", c as u32).chars().collect(),
+                c => vec![c],
+            })
+            .collect();
+        line.push_str(&std::format!(",\"{k}\":\"{escaped}\""));
+    }
+    line.push_str("}\n");
+    let _ = sink.file.write_all(line.as_bytes());
+}
+
+/// Sleeps the calling thread if the named pause point is configured.
+pub fn pause(point: &str) {
+    let pauses = PAUSES.get_or_init(|| {
+        std::env::var("BRUSH_VERIF_PAUSE")
+            .map(|s| {
+                s.split(',')
+                    .filter_map(|item| {
+                        let (k, v) = item.split_once('=')?;
+                        Some((k.trim().to_owned(), v.trim().parse().ok()?))
+                    })
+                    .collect()
+            })
+            .unwrap_or_default()
+    });
+    for (k, ms) in pauses {
+        if k == point {
+            std::thread::sleep(std::time::Duration::from_millis(*ms));
+        }
+    }
+}
